@@ -23,6 +23,11 @@ dicts without actions, None, empty generators -- returned or yielded (alone, aft
 generators), by static and by create_after creators, through generate_tasks, load_tasks, the commands in-process and the real
 command line; oracle from the property text (`oracle_invalid` / `oracle_names` there), model Loader.v [pyres] / [classify].
 
+Entry points (harness/c18_entry.py): the same namespace loaded through DoitMain(ModuleTaskLoader(dict | module)).run, doit.run,
+doit.api.run_tasks, the DodoTaskLoader, LOADER plugins and the real command line x the command (a COMMAND plugin included) x how
+the configuration is given; the oracle is the fault the case declares (a creator named like a core or plugin command, a result
+that is no task definition, an inconsistent task set); model LoaderEntry.v [entry_load] / [entry_report].
+
 Encoding compared (list of ints), see Loader.v `enc`:
   accepted   0, #tasks, then per task: name, has_subtask, subtask_of or -1, #task_dep, the task_deps
              (a string = its length followed by its character codes)
@@ -880,7 +885,12 @@ def run(ctx):
                 'each creator form one by one, random mixes of 3-8 definitions) imported and loaded for real; '
                 'result values: every top-level Python type in its falsy and truthy form, dicts without actions, None, empty generators x '
                 '{returned, yielded alone / after / before valid sub-tasks, nested 1-3 deep} x {static, create_after(executed), create_after(), '
-                'create_after(creates)} creators, through generate_tasks, load_tasks, the commands in-process and the real command line.  '
+                'create_after(creates)} creators, through generate_tasks, load_tasks, the commands in-process and the real command line; '
+                'entry points: {DoitMain(ModuleTaskLoader(dict | module)).run, doit.run, doit.api.run_tasks, DodoTaskLoader (-f), a NamespaceTaskLoader '
+                'plugin, a TaskLoader2 plugin, python -m doit, python script.py with doit.run(globals()), python -m doit with a LOADER plugin} x '
+                '{list, list --all, run, clean -n, info, forget, ignore, a COMMAND plugin} x configuration by {doit.cfg, extra_config} x namespaces '
+                '{valid, names that look like commands, a creator named like each core command / like a plugin command (static, create_after), '
+                'results that are no task definition, dangling task_dep / setup, duplicate targets}.  '
                 'non-trivial = distinct case (kind, label); every case is a distinct input')
     groups = [gen_single_fault(), gen_elements(), gen_rules()]
     pairs = gen_pairs(ctx)
@@ -944,13 +954,17 @@ def run(ctx):
     # for static and create_after creators, through generate_tasks / load_tasks / the commands (harness/c18_values.py)
     import c18_values as V
     V.run_part(ctx, out, model_cases)
+    # the ENTRY POINT through which the namespace is loaded (DoitMain.run / doit.run / api.run_tasks / DodoTaskLoader / LOADER
+    # plugins / the real command line) x the command x core and plugin command names (harness/c18_entry.py)
+    import c18_entry as E
+    E.run_part(ctx, out, model_cases)
     shapes = {}
     for v in out.violations:
         e = shapes.setdefault(v['shape'], dict(count=0, what=v['what'], example=v['case']))
         e['count'] += 1
     out.extra['violation_shapes'] = shapes
     out.evaluations = len(model_cases) + out.extra.get('delayed_invalid_runs', 0) + out.extra.get('result_values', {}).get('command_line_runs', 0)
-    pre = PRE + V.PRE_EXTRA + 'Definition cmds0 : list string := [%s].\n' % '; '.join(cstr(x) for x in cmd_names())
+    pre = PRE + V.PRE_EXTRA + E.PRE_ENTRY + 'Definition cmds0 : list string := [%s].\n' % '; '.join(cstr(x) for x in cmd_names())
     bad = compare(ctx, pre, model_cases)
     out.traces_validated = len(model_cases)
     for i, m in bad:
@@ -965,7 +979,8 @@ def run(ctx):
         'the parameters given by @task_params, result_dep objects in uptodate and BaseAction instances in clean/teardown are not modelled',
         'result values (harness/c18_values.py): values the model has no constructor for (bytes, set, frozenset, range, complex, Decimal, Fraction, deque, OrderedDict, defaultdict, mappingproxy, iterators, objects with __bool__ / __len__) are judged by the oracle only; all others are also compared with Loader.classify / generate_tasks_py / load_py',
         'a create_after creator whose result is rejected when the RUN calls it (TaskDispatcher._add_task): the oracle asks for a non-zero exit code, a diagnostic naming the creator, no traceback and none of its tasks executed -- the code gives exit 2 (run aborted), not 3, because tasks have already been executed (same reading as for the dangling dependencies of run-time tasks, fix 8f57713)',
-        'importlib.metadata.entry_points (plugin discovery, unrelated to loading) is memoised while the in-process commands of the result-value part run',
+        'importlib.metadata.entry_points (plugin discovery, unrelated to loading) is memoised while the in-process commands of the result-value part and of the entry-point part run',
+        'entry points (harness/c18_entry.py): the set of command names of the oracle is the documented list of core commands (doc/cmd-run.rst, doc/cmd-other.rst) plus the COMMAND plugins the case declares; a difference with DoitMain.get_cmds() is itself reported.  Faults of the whole task set (dangling references, duplicate targets) are demanded of the commands that build the task graph (run, clean).  api.run_tasks re-raises the user errors instead of returning 3 (its documented behaviour): InvalidDodoFile / InvalidTask raised = rejected.  Not exercised: `doit auto` (separate package), tabcompletion / help <task>, entry_points-installed plugins',
     ]
     out.extra['trusted_base'] = ['mapping of concrete Python values to the tags of Model/Loader.v (harness/c18.py to_py / to_coq)']
     return out
@@ -1030,6 +1045,9 @@ def replay(ctx, payload):
     if case.get('part') == 'result-value':
         import c18_values as V
         return V.replay(ctx, case)
+    if str(case.get('part', '')).startswith('entry-point'):
+        import c18_entry as E
+        return E.replay(ctx, case)
     c = dict(creators=[dict(name=x['name'], result=_tup(x['result']), delayed=_tup(x.get('delayed'))) for x in case['creators']],
              allow=case.get('allow', False), cmds=cmd_names() if not isinstance(case.get('cmds'), list) else case['cmds'])
     obs, tasks, site = observe(c, control=True)
